@@ -12,10 +12,31 @@ UNVERIFIED = [
     'histories: supply == sum of user balances and total_minted monotone follow by induction from the per-operation deltas proved here (each operation changes supply and exactly one balance by the same amount); the induction itself is not mechanised',
     'GtState::init / set_* establishing grow_step_amount != 0, strictly increasing ranks, grow_steps == total_minted / grow_step_amount initially: not under contract here',
     'exchange requests: unchecked_request_exchange = unchecked_burn_from (proved) + vault.add / exchange.add (not under contract here); GtExchangeVault::validate_depositable / validate_confirmable time-window rules: not under contract here',
-    'no native replay: these are pub(crate)/private items of an Anchor program crate; a failed obligation is reported with the verifier output and no-failing-input-found',
+    'native fallback (native/C30.rs, bounded: five threshold tables, balances < 12, two mints and a burn) for mint_to / unchecked_burn_from / unchecked_update_rank only; otherwise no native replay: these are pub(crate)/private items of an Anchor program crate; a failed obligation is reported with the verifier output and no-failing-input-found',
 ]
 ASSUMPTIONS = ['wf(GtState): max_rank <= 15 and ranks[0..max_rank) strictly increasing (enforced by GtState::init / set ranks; precondition of mint_to / unchecked_burn_from / unchecked_update_rank here)', 'the split-independence of the minting cost is stated for states with grow_steps == total_minted / grow_step_amount (an invariant mint_to is proved to preserve)']
 MANIFEST = dict(engine='verus',
     technique='Verus contracts on GtState::{next_minting_cost (loop invariant), get_mint_amount, mint_to, unchecked_burn_from, unchecked_update_rank, update_cumulative_inv_cost_factor} extracted from /repo each run, plus the split lemma cost_after(cost_after(c,a),b) == cost_after(c,a+b)',
     text='Deductive proof, unbounded over all states and amounts, per operation: mint_to adds the same amount to supply, user balance, total minted and user total minted (or fails leaving everything unchanged); burn subtracts the same amount from supply and balance, rejects more than the balance, leaves total minted untouched; the step counter stays total_minted / grow_step_amount and the cost is the old cost grown once per newly reached step, hence a function of the total minted only (split lemma); get_mint_amount returns floor(value / cost) whole units, minted value = units * cost, remainder < cost stays unminted; update_cumulative_inv_cost_factor touches only its two fields. After every mint and burn the user rank equals the number of configured thresholds at or below the new balance (modulo the assumed std contract of slice binary_search on strictly increasing ranks).',
     note='Trusted: Verus+Z3, prelude, carriers, clock stubs. slice::binary_search over the rank prefix is an assumed std contract; histories by (unmechanised) induction; exchange vault windows not covered.')
+
+
+def _native(repo):
+    from engine import native
+    return native.run('native/C30.rs', repo)
+
+
+def replay(ob, repo, seed):
+    """bounded native run of the extracted text of mint_to / unchecked_burn_from / unchecked_update_rank (rank and supply clauses)"""
+    if not any(k in ob['id'] for k in ('mint_to', 'unchecked_burn_from', 'unchecked_update_rank', 'rank')):
+        return None
+    r = _native(repo)
+    if r['error']:
+        return dict(failing_input=None, note='native run of the extracted text not possible: ' + r['error'])
+    if r['fails']:
+        return dict(failing_input=dict(function='GtState::{mint_to, unchecked_burn_from, unchecked_update_rank, ranks} (text verbatim from /repo on plain-Rust carriers)', cases=r['fails']),
+                    note=f"bounded native search; first failing cases listed; {r['log']}")
+    return dict(failing_input=None, note=f"{r['executions']} native executions of the extracted text kept rank == number of thresholds reached and supply == balance")
+
+
+FALLBACK_OBS = ['C30.GtState.mint_to']
